@@ -760,13 +760,12 @@ fn roundtrip_delta_seen(sess: Uuid, serial: u64, want: &[Seen], chunk: usize) ->
     let mut c = Collect::new(chunk);
     <Collect as ProcessDelta>::process(&mut c, xml.as_slice()).map_err(|e| format!("written delta does not process: {e}"))?;
     if c.meta != [(sess, serial)] { return Err(format!("meta reported {:?}, wrote ({sess},{serial})", c.meta)) }
-    let want: Vec<Seen> = els.iter().map(|e| e.expect()).collect();
-    diff_seen(&want, &c.seen)?;
+    diff_seen(want, &c.seen)?;
     if back.session_id() != sess || back.serial() != serial { return Err(format!("parse() gives session {} serial {}", back.session_id(), back.serial())) }
     if back != delta { return Err("Delta::parse result is not `==` the written value".into()) }
     for (what, v) in [("written Delta", &delta), ("parsed Delta", &back)] {
-        accessor_sweep(&want, v.elements(), &format!("{what}.elements()"))?;
-        accessor_sweep(&want, &v.clone().into_elements(), &format!("{what}.into_elements()"))?;
+        accessor_sweep(want, v.elements(), &format!("{what}.elements()"))?;
+        accessor_sweep(want, &v.clone().into_elements(), &format!("{what}.into_elements()"))?;
     }
     Ok(())
 }
@@ -1936,8 +1935,8 @@ fn scale_set(max: u64, thorough: bool, extra: &[u64]) -> Vec<u64> {
         let in_quick = k <= 4096 || k == 65536;
         if thorough || in_quick { v.extend([k - 1, k, k + 1]) }
     }
-    v.extend_from_slice(extra);
     v.retain(|x| *x <= max);
+    v.extend_from_slice(extra); // thresholds of the library itself: always included
     v.sort(); v.dedup();
     v
 }
@@ -1945,8 +1944,8 @@ fn scale_set(max: u64, thorough: bool, extra: &[u64]) -> Vec<u64> {
 fn notification_with(n: u64, uri_len: usize) -> NotificationFile {
     let h = hashes()[2];
     let pad = "p".repeat(uri_len);
-    NotificationFile::new(sessions()[2], 10_000_000 + n, UriAndHash::new(https(&format!("https://h.example/{pad}/snapshot.xml")), h),
-        (0..n).map(|i| DeltaInfo::new(10_000_000 + i, https(&format!("https://h.example/{i:08}/{pad}/delta.xml")), h)).collect())
+    NotificationFile::new(sessions()[2], 10_000_000 + n, UriAndHash::new(https(&format!("https://h.example/x{pad}/snapshot.xml")), h),
+        (0..n).map(|i| DeltaInfo::new(10_000_000 + i, https(&format!("https://h.example/{i:08}/x{pad}/delta.xml")), h)).collect())
 }
 
 fn written_len(nf: &NotificationFile) -> u64 { let mut v = Vec::new(); let _ = nf.write_xml(&mut v); v.len() as u64 }
@@ -2033,10 +2032,10 @@ fn space_scale(ctx: &Ctx) {
     let lens = scale_set(1 << 19 | 1, thorough, &[near_limit]);
     lens.par_iter().for_each(|&len| {
         sp.eval(); big(len); sp.outcome("notification-uri");
-        fails.check((4 << 40) | len, "C09.roundtrip.notification", || format!("notification with 2 deltas whose URIs (and the snapshot's) have a path segment of {len} octets"), || roundtrip_notification(&notification_with(2, len as usize)).map(|_| ()));
+        fails.check((4 << 40) | len, "C09.roundtrip.notification", || format!("notification with 2 deltas whose URIs (and the snapshot's) have a path segment of 1 + {len} octets"), || roundtrip_notification(&notification_with(2, len as usize)).map(|_| ()));
         sp.eval(); big(len); sp.outcome("publish-uri");
-        fails.check((5 << 40) | len, "C09.roundtrip.snapshot", || format!("snapshot publish whose URI has a path segment of {len} octets"), || {
-            let want = vec![Seen::Publish { uri: rsync(&format!("rsync://h.example/m/{}/o.roa", "p".repeat(len as usize))), hash: None, data: vec![1, 2, 3] }];
+        fails.check((5 << 40) | len, "C09.roundtrip.snapshot", || format!("snapshot publish whose URI has a path segment of 1 + {len} octets"), || {
+            let want = vec![Seen::Publish { uri: rsync(&format!("rsync://h.example/m/x{}/o.roa", "p".repeat(len as usize))), hash: None, data: vec![1, 2, 3] }];
             roundtrip_snapshot(sessions()[0], 1, &want, 0)
         });
     });
